@@ -93,6 +93,10 @@ func c18GoValue(name string) any {
 			L      [][]byte          `yaml:"l"`
 			A      [3]byte           `yaml:"a"`
 		}{[]byte("abc"), map[string][]byte{"k": []byte("---"), "e": {}}, [][]byte{[]byte("x"), nil}, [3]byte{1, 2, 3}}
+	case "tiekeys":
+		// map keys that are equal under natural ordering (leading zeros) or differ only in case / digits: the order must not depend on map iteration
+		return map[string]any{"disk01_size": 1, "disk1_size": 2, "v01-beta": "a", "v1-beta": "b", "eth0_mtu": 3, "eth00_mtu": 4, "K": 5, "k": 6, "item10": 7, "item9": 8,
+			"nested": map[string]any{"a01": 1, "a1": 2, "a001": 3}, "list": []any{map[string]any{"x007": 1, "x7": 2}}}
 	case "sharedptr":
 		return c18Plain{Leaf: c18SharedLeaf, Items: []string{"a", "b"}, Tags: map[string][]int{"x": {1, 2}, "y": {3}}}
 	case "map8":
@@ -145,7 +149,7 @@ func c18Gen(c *vfCtx, emit func(c18Case)) {
 		emit(c18Case{Kind: "text", Text: doc})
 		emit(c18Case{Kind: "text", Text: "# big\n---\n" + doc, Bytes: true})
 	}
-	for _, v := range []string{"map8", "struct", "slice", "sharedptr", "bytes"} {
+	for _, v := range []string{"map8", "struct", "slice", "sharedptr", "bytes", "tiekeys"} {
 		emit(c18Case{Kind: "govalue", Value: v})
 	}
 }
